@@ -4,7 +4,7 @@
                   (pair lines only) 6 instrumented& , 7 instrumented const&   (construction binds, assignment assigns through)
    categories     0 l (lvalue), 1 c (const lvalue), 2 r (rvalue), 3 k (const rvalue)
 
-   pair  op=cmp e=int|dbl a=[x,y] b=[u,v]                       -> six bits  == != < <= > >=   (dbl: 9 is NaN)
+   pair  op=cmp e=int|dbl|kp|kpi|ikp a=[x,y] b=[u,v]            -> six bits  == != < <= > >=   (dbl: 9 is NaN; kp: key v/2, payload v%2)
    pair  op=<O> t=[k1,k2] a=[x,y] b=[u,v]                       -> r=[..] a=[..] b=[..] cp=N | n/a
    tuple op=<O> t=[k,..] a=[..] b=[..]                          -> same;  op=eq -> bit
          O: dflt ctor ctorr copy move assign massign swap fswap selfswap make maker get getc getr getcr sb mft mftr fwd tie
@@ -350,10 +350,21 @@ def step (st : DState) (l : Line) : DState × String :=
       | some "dbl" =>
         out (bits (Spec.modelRels Spec.dEq Spec.dEq Spec.dLt Spec.dLt (x, y) (u, v)))
             (bits (Spec.pairRels Spec.dEq Spec.dEq Spec.dCmp Spec.dCmp (x, y) (u, v)))
+      | some "kp" =>     -- pair<KP, KP>: `<` on the key, `==` on key and payload; the spec is the synthesised three-way comparison
+        out (bits (Spec.modelRels Spec.kpEq Spec.kpEq Spec.kpLt Spec.kpLt (x, y) (u, v)))
+            (bits (Spec.pairRels Spec.kpEq Spec.kpEq (Spec.synth3 Spec.kpLt) (Spec.synth3 Spec.kpLt) (x, y) (u, v)))
+      | some "kpi" =>    -- pair<KP, int>
+        out (bits (Spec.modelRels Spec.kpEq iEq Spec.kpLt iLt (x, y) (u, v)))
+            (bits (Spec.pairRels Spec.kpEq iEq (Spec.synth3 Spec.kpLt) (Spec.synth3 iLt) (x, y) (u, v)))
+      | some "ikp" =>    -- pair<int, KP>
+        out (bits (Spec.modelRels iEq Spec.kpEq iLt Spec.kpLt (x, y) (u, v)))
+            (bits (Spec.pairRels iEq Spec.kpEq (Spec.synth3 iLt) (Spec.synth3 Spec.kpLt) (x, y) (u, v)))
       | _ => bad
     | some "eq", some a, some b =>
       -- (tuples of different arity do not compare: `requires(sizeof...(Ts) == sizeof...(Us))`; no such line exists)
       if l.op != "tuple" || a.length != b.length then bad
+      else if l.str? "e" == some "kp" then      -- tuple<KP, ...>: `==` on key and payload
+        out (fmtE fmtBool (C20.tupleEq Spec.kpEq a b)) (fmtBool (Spec.tupleEqBy Spec.kpEq a b))
       else out (fmtE fmtBool (C20.tupleEq iEq a b)) (fmtBool (Spec.tupleEq a b))
     | some "apply", some a, _ =>
       match (l.nat? "q").bind catOf, catOf ((l.nat? "c").getD 0) with
